@@ -5,6 +5,7 @@ def wit(fid):
     r = json.load(open(f"{W}/witness_{fid}.json"))
     return {"profile": r["profile"], "scenario": r["scenario"], "signature": r["signature"]}
 known = [
+ ("F28", ["C07", "C08"], "chain(X, statically-empty).sorted(s).with_rows_satisfying(p) (or a calculation) buries the un-sliced sort in a subquery without raising; join/chain/materialise on top is accepted; process() prunes the empty branch, re-applies the operations on the now non-compound Select, the sort resurfaces and the order-loss RelationalAlgebraError is raised by process() instead of by the factory call"),
  ("F4", ["C03", "C04"], "Projection.commute moves a projection upstream of a Deduplication when backtracking (sql_leaf.transferred_to(it).without_duplicates().with_only_columns({a}, preferred_engine=sql) returns [1,2] instead of [1,1,2]); tests/test_projection.py::test_backtracking_apply pins this move, so it cannot be repaired without editing the suite"),
  ("F7", ["C08"], "S.sorted([b]).with_only_columns({a,c}).without_duplicates().with_only_columns({a}) is accepted, then to_executable() raises KeyError: b (outer Select keeps a sort on a column its DISTINCT subquery no longer provides); a repair has to decide between refusing at construction and changing semantics - not small"),
  ("F13", ["C17"], "S.with_calculated_column(x, e).with_only_columns({a}): the Select marker's skip_to is the Calculation relation, but its own Projection elided the Calculation from the target chain, so walking target never reaches skip_to (harmless for compilation; marker incoherent)"),
